@@ -95,8 +95,8 @@ type vfC04DHCP struct {
 	macs map[netip.Addr]net.HardwareAddr
 }
 
-func (d *vfC04DHCP) Leases() []*dhcpsvc.Lease      { return nil }
-func (d *vfC04DHCP) HostByIP(netip.Addr) string    { return "" }
+func (d *vfC04DHCP) Leases() []*dhcpsvc.Lease   { return nil }
+func (d *vfC04DHCP) HostByIP(netip.Addr) string { return "" }
 func (d *vfC04DHCP) MACByIP(ip netip.Addr) net.HardwareAddr {
 	return slices.Clone(d.macs[ip])
 }
